@@ -209,6 +209,17 @@ def run(tier, only=None):
         _L = lifecycle.Live(k)
         FIELDS[k] = (_L.fields(), _L.zero_fields())
     jobs = [(k, concretise(k, h, i)) for k in kinds for i, h in enumerate(hs)]
+    # the pair-pattern histories that END at the zero-valued point are replayed for EVERY input that may be zero (not one in rotation):
+    # "linearised with the input non-zero, then with it exactly zero" is the shape in which a skipped sub-Jacobian stays stale
+    pair_keys = {json.dumps(h) for h in PAIRS}
+    extra = []
+    for k in kinds:
+        for h in hs:
+            if json.dumps(h) in pair_keys and h[3] == ["set", "z"] and h[0][1] != "z":
+                for j in range(len(FIELDS[k][1])):
+                    extra.append((k, concretise(k, h, j)))
+    have = {json.dumps(j) for j in jobs}
+    jobs += [j for j in extra if json.dumps(j) not in have]
     need = sorted({(k, e[1]) for k, h in jobs for e in h if e[0] == "set" and ("~" in e[1] or "!" in e[1])})
     for kind, p, val in check_exc(pmap(_fresh_job, need)):
         lifecycle._FRESH[(kind, p, "auto")] = val
